@@ -663,6 +663,10 @@ def rule_R7(P, rep):
                 why.append("the index %s is not advanced together with the store" % ivar)
         else:
             why.append("index %s is not a counter" % F.render(ln["i"]))
+        # the unit stored is the one the work unit has after it was associated with this pool
+        assoc = [c for _b, c in F.calls("ABTI_thread_set_associated_pool")]
+        if assoc and not any(cfg.dominates(F, c, i) for c in assoc):
+            why.append("the unit is read before ABTI_thread_set_associated_pool (which may replace it)")
         if ivar != cntname:
             why.append("the buffer is filled with index `%s` but `%s` entries are pushed" % (ivar, F.render(call["a"][2])))
         if F.base_var(ln["b"]) != bufarg:
